@@ -1,15 +1,60 @@
-(* Property C15: the parser inverts the writer.  Statements only; proofs in Proofs/ParserP.v.
-   PARTIAL: proved so far is the number coding through the parser's own decoder on a byte-aligned
-   reader (all frame / sample numbers below 2^36); the full composition parse(bytes(s)) = s over
-   the component tree is decided per run on the implementation (parse consumes all input,
+(* Property C15: the parser inverts the writer.  Statements only; proofs in Proofs/ParserP.v,
+   Proofs/ParseResidual.v, Proofs/ParseSubframe.v (on top of BitRead / BitWrite / BitUnary).
+
+   Proved, for components of any size:
+     - residuals (any partition order, parameters 0..14, quotients below 2^32, warm-up) and all four
+       subframe kinds: the parser, started at ANY bit position of a byte string whose next bits are
+       those the component's operations denote, returns the identical component and stops right
+       after them (C15_residual, C15_subframe);
+     - those operations denote exactly those bits at any position (C15_*_ops_bits), and the byte
+       sink exports them zero-padded to a byte (C15_bytes_carry_the_bits);
+     - frame / sample numbers below 2^36 through the parser's own decoder (C15_number_parse).
+   PARTIAL: the composition over frame headers (code fields, CRC-8), frames (padding, CRC-16) and the
+   stream (marker, metadata) is decided per run on the implementation (parse consumes all input,
    verifies, re-serialises to identical bytes, decodes to the input) and on the parser model by the
-   PARSE correspondence stream.  The component-level inverse (predictors, residuals, stereo) is
-   Props/C01.v. *)
-From FV Require Import Model.Base Model.Codes Model.Flac Model.Parser Proofs.ParserP.
+   PARSE and CTOR correspondence streams. *)
+From FV Require Import Model.Base Model.Sink Model.Codes Model.Rice Model.Predict Model.Component Model.Flac Model.Parser Model.Ctor
+  Proofs.OpsLen Proofs.ParserP Proofs.BitRead Proofs.BitWrite Proofs.CtorP Proofs.ParseResidual Proofs.ParseSubframe.
 Local Open Scope N_scope.
 
-Theorem C15_number_parse_partial : forall v bytes rest c,
+Theorem C15_number_parse : forall v bytes rest c,
   utf8like v = Ok bytes ->
   p_utf8 (mkRd (bytes ++ rest) 0 c) = Some (v, mkRd rest 0 (c + N.of_nat (length bytes))).
 Proof. exact p_utf8_roundtrip. Qed.
-Print Assumptions C15_number_parse_partial.
+Print Assumptions C15_number_parse.
+
+(* reads p bits x := on every well-formed reader whose next bits are `bits` (any offset in a byte, anything
+   after them), p returns x, consumes exactly those bits and keeps the reader well-formed *)
+Theorem C15_residual : forall r : residual,
+  verify_residual r = true -> quot_u32 r ->
+  reads (p_residual (r_block r) (r_warmup r)) (ParseResidual.residual_bits r) r.
+Proof. exact reads_residual. Qed.
+Print Assumptions C15_residual.
+
+Theorem C15_residual_ops_bits : forall (r : residual) (cur : N),
+  verify_residual r = true -> ops_bitlist cur (residual_ops r) = ParseResidual.residual_bits r.
+Proof. exact residual_ops_bits. Qed.
+Print Assumptions C15_residual_ops_bits.
+
+Theorem C15_subframe : forall s : subframe,
+  verify_subframe s = true -> sub_typed s -> sub_quot_u32 s ->
+  reads (p_subframe (sub_block s) (sub_bps s)) (subframe_bits s) s.
+Proof. exact reads_subframe. Qed.
+Print Assumptions C15_subframe.
+
+Theorem C15_subframe_ops_bits : forall (s : subframe) (cur : N),
+  verify_subframe s = true -> ops_bitlist cur (subframe_ops s) = subframe_bits s.
+Proof. exact subframe_ops_bits. Qed.
+Print Assumptions C15_subframe_ops_bits.
+
+Theorem C15_bytes_carry_the_bits : forall (ops : list op) (bytes : list N),
+  forallb wf_op ops = true -> pack KU8 ops = Ok bytes ->
+  Forall (fun x => x < 256) bytes /\
+  bytes_bits bytes = ops_bitlist 0 ops ++ repeat false (N.to_nat (pad8 (ops_len 0 ops))).
+Proof. exact pack_u8_bits. Qed.
+Print Assumptions C15_bytes_carry_the_bits.
+
+(* the ideal bit string of an operation sequence (C11) is the list of bits used above *)
+Theorem C15_ideal_bits : forall ops : list op, bstr_bits (ideal_run ops) = ops_bitlist 0 ops.
+Proof. exact ideal_run_bits. Qed.
+Print Assumptions C15_ideal_bits.
